@@ -124,6 +124,10 @@ class Program:
             self.mods[name] = m
         if self.parse_errors:
             raise AnalysisError(f"modules failed to parse: {self.parse_errors}")
+        # static metaprogramming (name tuples, dict(zip()), ** option dicts, setattr loops, record-passing helpers) is
+        # evaluated away once, for all engines (sa/desugar.py); VERIF_NODESUGAR=1 analyses the trees as written
+        from . import desugar
+        self.desugar_stats = desugar.desugar({k: m.tree for k, m in self.mods.items()})
         for m in self.mods.values():
             self._index(m)
         self._callgraph = None
